@@ -3,7 +3,7 @@
   MS ADPCM, on the bit-exact encoder model of SfModel/AdpcmEnc.lean, AdpcmFile.lean: the generic block-writer theorems of
   SfProps/C07Block.lean instantiated with the REAL encoders (step index / predictor carried across blocks, the `samples` buffer
   as each encode call leaves it).  Property theorems only; helpers in SfProofs/AdpcmEnc.lean, SfProofs/BlockWriter.lean.
-  -- properties: C04 C05 C07
+  -- properties: C02 C04 C05 C07
 
   * `adpcm_write_is_fold`        any sequence of write calls of any caller types (4096-short staging for int / float / double,
                                   none for short), 1 or 2 channels, is the per-frame fold `pushFrame` over the converted frames
@@ -481,5 +481,20 @@ theorem adpcm_written_stream_partition (g : Geo) (hg : WGeo g) (cv : Conv) (call
 example : (readerOf (geoOf .ms 8000 1) (closedBytes (geoOf .ms 8000 1) {} [(.s16, [1000, -2000, 3000])])).frames = 500 ∧
     ((readerOf (geoOf .ms 8000 1) (closedBytes (geoOf .ms 8000 1) {} [(.s16, [1000, -2000, 3000])])).src 0).take 2 = [1000, -2000] := by
   decide +kernel
+
+/-! ## the conversions in front of the encoders (C02) -/
+
+/-- `ima_write_i` / `msadpcm_write_i`: an int is narrowed by keeping its most significant 16 bits — whatever the low half
+    holds, for negative values too (`>> 16`, not a division); a short passes through unchanged -/
+theorem adpcm_int_narrowing (cv : Conv) (x r : Int) (hr0 : 0 ≤ r) (hr1 : r < 65536) :
+    toCodec cv .s32 (x * 65536 + r) = x ∧ toCodec cv .s16 x = x := by
+  refine ⟨?_, rfl⟩
+  show asr (x * 65536 + r) 16 = x
+  unfold asr
+  have : (2 : Int) ^ 16 = 65536 := by decide
+  rw [this]
+  omega
+
+example : toCodec {} .s32 (-3 * 65536 + 0x8001) = -3 ∧ toCodec {} .s32 (-1) = -1 := by decide
 
 end Sf.C07Adpcm
